@@ -4,6 +4,7 @@ import os, sys, json
 from fractions import Fraction as F
 import gen_cases as G
 import props_c18
+import props_c12b
 
 VERIF = os.path.dirname(os.path.dirname(os.path.abspath(__file__)))
 
@@ -193,7 +194,7 @@ def calls_C12(g, mb):
     p = G.point(g)
     c = ["call COM 1", "call COM0 1", "call KE 1", "call PE 1", "call ZMP %s %s 1" % (n, p)]
     c += ["poison %d" % g.r.randint(1, 10 ** 6), "call UKC 7", "call COM 0", "call ZMP %s %s 0" % (n, p)]
-    return c
+    return c + props_c12b.calls_fpe(g, mb)
 
 
 def gen_C12(seed, tier):
@@ -1451,6 +1452,9 @@ PROPS = {
             "explanation": "theorem: call-granularity non-interference for a world with explicit globals (RbdlProofs/Props/C20.lean); tie: the writable symbols of the freshly compiled library and addons (nm) must equal the declared list tools/globals_expected.json; search: concurrent and interleaved runs vs solo runs, ThreadSanitizer in the thorough tier",
             "level_text": "partial: the theorem is about call-granularity interleavings of a model whose only shared components are the declared globals; instruction-level races, allocator and libc behaviour are outside the model and are only searched for (threads, TSan)",
             "assumptions": ["the writable-symbol list extracted by nm is complete for static storage (function-local statics included)"]},
-    "C12": {"gen": gen_C12, "rule": RULE_MODELS + "; random contact plane (unit normal, point off the origin)", "explanation": "monitor: definitions of mass, CoM, momentum, energies, ZMP on jets of the pose specification",
+    "C12": {"gen": gen_C12, "harness": "driver_bal",
+            "extra_srcs": lambda: [os.path.join(os.environ.get("VERIF_REPO", "/repo"), "addons/balance/BalanceToolkit.cc")],
+            "rule": RULE_MODELS + "; random contact plane (unit normal, point off the origin); balance addon: gravity opposing a random rational unit normal, plane below / through the mechanism, at rest / omega-small / eps = 0 variants, flag-cleared call on a poisoned workspace",
+            "explanation": "monitor: definitions of mass, CoM, momentum, energies, ZMP on jets of the pose specification; foot-placement estimator: whole-body inertia / angular momentum about the CoM and about its ground projection from the definitions (monitor), foot-placement geometry, projections, Eigen solves, Eqn. 45 residual and the 20 derivative fields (first-order jets) as certificates on the implementation's outputs",
             "assumptions": COMMON_ASSUMPTIONS},
 }
